@@ -4,8 +4,8 @@
    configuration, every connection state, every oracle stream of auth-server answers,
    every clock reading and every command list of the model (model/Gate.v). *)
 From Coq Require Import List NArith ZArith Bool String.
-From NSQV Require Import model.Judge model.Names model.GateSyn model.Gate model.GateRe
-                         gen.GateTable proofs.GateProofs proofs.GateTableProofs.
+From NSQV Require Import model.Judge model.Names model.GateSyn model.Gate model.GateRe model.GateHttp
+                         gen.GateTable proofs.GateProofs proofs.GateTableProofs proofs.GateHttpProofs.
 Import ListNotations.
 Open Scope list_scope.
 Open Scope bool_scope.
@@ -88,6 +88,70 @@ Print Assumptions C11_http_wiring_complete.
 Theorem C11_servehttp_shape : servehttp_guard = GuardNotEnabledAndRequired 403.
 Proof. exact servehttp_shape. Qed.
 Print Assumptions C11_servehttp_shape.
+
+(* ------------------------------------------------------------------ over the listeners a daemon has *)
+(* [ad] says which of --http-address / --https-address are given.  With tls_required =
+   required EVERY plaintext request (every endpoint, http_step's hreq) is answered 403 and
+   changes nothing, whether or not the daemon has an HTTPS listener; otherwise the request
+   is served. *)
+Theorem C11_http_plain_refuses_everything : forall cfg ad w q,
+  c_tls_required cfg = TlsRequired -> a_http ad = true ->
+  http_exchange cfg ad Plain w q = Some (403%N, w).
+Proof. exact plain_refuses_everything. Qed.
+Print Assumptions C11_http_plain_refuses_everything.
+Theorem C11_http_plain_serves_otherwise : forall cfg ad w q,
+  c_tls_required cfg <> TlsRequired -> a_http ad = true ->
+  http_exchange cfg ad Plain w q = Some (http_step w q).
+Proof. exact plain_serves_otherwise. Qed.
+Print Assumptions C11_http_plain_serves_otherwise.
+Theorem C11_http_plain_exchange_403_iff : forall cfg ad w q, a_http ad = true ->
+  ((exists w', http_exchange cfg ad Plain w q = Some (403%N, w')) <-> c_tls_required cfg = TlsRequired).
+Proof. exact plain_403_iff. Qed.
+Print Assumptions C11_http_plain_exchange_403_iff.
+Theorem C11_http_plain_independent_of_https : forall cfg ad b w q,
+  http_exchange cfg (mkAddrs (a_http ad) b) Plain w q = http_exchange cfg ad Plain w q.
+Proof. exact plain_independent_of_https. Qed.
+Print Assumptions C11_http_plain_independent_of_https.
+(* a client-certificate policy alone (tls_required not given) refuses plaintext HTTP *)
+Theorem C11_http_policy_refuses_plain : forall raw cfg ad w q,
+  startup raw = Some cfg -> c_policy raw <> PolNone -> c_tls_required raw <> TlsRequiredExceptHTTP ->
+  a_http ad = true -> http_exchange cfg ad Plain w q = Some (403%N, w).
+Proof. exact policy_refuses_plain. Qed.
+Print Assumptions C11_http_policy_refuses_plain.
+Theorem C11_https_exchange : forall cfg ad w q,
+  http_exchange cfg ad Https w q = if c_tls_config cfg && a_https ad then Some (http_step w q) else None.
+Proof. exact https_exchange. Qed.
+Print Assumptions C11_https_exchange.
+Theorem C11_http_no_listener_no_answer : forall cfg ad w q,
+  (a_http ad = false -> http_exchange cfg ad Plain w q = None) /\
+  (c_tls_config cfg && a_https ad = false -> http_exchange cfg ad Https w q = None).
+Proof. exact no_listener_no_answer. Qed.
+Print Assumptions C11_http_no_listener_no_answer.
+(* no trace: on either listener a request answered 403 left topics, counts and channels alone *)
+Theorem C11_http_refused_no_trace : forall cfg ad l w q st w',
+  http_exchange cfg ad l w q = Some (st, w') -> st = 403%N -> w' = w.
+Proof. exact refused_no_trace. Qed.
+Print Assumptions C11_http_refused_no_trace.
+Theorem C11_http_handlers_never_403 : forall w q, fst (http_step w q) <> 403%N.
+Proof. exact http_step_not_403. Qed.
+Print Assumptions C11_http_handlers_never_403.
+(* the listeners nsqd.New creates and NSQD.Main serves, per the regenerated tables *)
+Theorem C11_http_listens_plain : forall cfg ad, eval_listens cfg ad "httpListener" = Some (plain_listens cfg ad).
+Proof. exact listens_plain. Qed.
+Print Assumptions C11_http_listens_plain.
+Theorem C11_http_listens_https : forall cfg ad, eval_listens cfg ad "httpsListener" = Some (https_listens cfg ad).
+Proof. exact listens_https. Qed.
+Print Assumptions C11_http_listens_https.
+Theorem C11_http_listens_complete :
+  map (fun h => (hl_listener h, hl_func h, hl_tls h)) http_listens =
+    [("httpListener", "New", false); ("httpsListener", "New", true)]%string.
+Proof. exact listens_complete. Qed.
+Print Assumptions C11_http_listens_complete.
+Theorem C11_http_serves_shape :
+  http_serves = [mkServe "httpListener" "httpListener" "httpListener";
+                 mkServe "httpsListener" "httpsListener" "httpsListener"]%string.
+Proof. exact serves_shape. Qed.
+Print Assumptions C11_http_serves_shape.
 
 (* nsqd.New: a daemon that starts and requires TLS has a certificate; a client-certificate
    policy makes TLS required. *)
@@ -277,4 +341,19 @@ Example C11_witness_http :
   http_plain_refused (mkCfg TlsNotRequired true PolNone 0) = false /\
   startup (mkCfg TlsNotRequired true PolRequire 0) = Some (mkCfg TlsRequired true PolRequire 0) /\
   startup (mkCfg TlsRequired false PolNone 0) = None.
+Proof. vm_compute. repeat split; reflexivity. Qed.
+
+(* TLS required, a plaintext listener and NO https address: refused all the same, and the
+   refused delete / publish / create leave the state alone; tcp-https serves *)
+Example C11_witness_http_listeners :
+  let w := mkW [([116;65], 3%N)] [([116;65], [120], 0%N)] in
+  let req := mkCfg TlsRequired true PolNone 0 in
+  http_exchange req (mkAddrs true false) Plain w (HDeleteTopic [116;65]) = Some (403%N, w) /\
+  http_exchange req (mkAddrs true false) Plain w (HPub [116;66]) = Some (403%N, w) /\
+  http_exchange req (mkAddrs true false) Https w HPing = None /\
+  http_exchange req (mkAddrs true true) Https w (HCreateChannel [116;65] [121]) =
+    Some (200%N, mkW [([116;65], 3%N)] [([116;65], [120], 0%N); ([116;65], [121], 0%N)]) /\
+  http_exchange (mkCfg TlsRequiredExceptHTTP true PolNone 0) (mkAddrs true false) Plain w (HDeleteTopic [116;65]) = Some (200%N, mkW [] []) /\
+  http_exchange (mkCfg TlsNotRequired false PolNone 0) (mkAddrs false true) Plain w HPing = None /\
+  startup (mkCfg TlsNotRequired true PolRequireVerify 0) = Some (mkCfg TlsRequired true PolRequireVerify 0).
 Proof. vm_compute. repeat split; reflexivity. Qed.
